@@ -220,6 +220,25 @@ def make_cases(run, scratch):
         for ty in (per_type if not quick else rng.sample(per_type, 4)):
             cases.append(("linux:%s|filter %d 1" % (os.path.basename(tb), ty),
                           ["env HWLOC_COMPONENTS linux,stop", "env HWLOC_THISSYSTEM 0", "env HWLOC_CPUID_PATH", "filter %d 1" % ty, "src fsroot " + d], "linux-type-none"))
+    # memory objects under filters (seeded change C01e: fixup_sets order with MemCache kept and the Group it hangs from
+    # filtered out): sources with memory-side caches / several NUMA nodes per place x (Group, MemCache, Package, L3) filters
+    mem_syn = ["pack:2 [numa(memory=1GB memorysidecachesize=256MB)] core:2 pu:2",
+               "[numa(memorysidecachesize=64MB)] pack:2 [numa] [numa(memorysidecachesize=16MB)] l3:2 pu:2",
+               "group:2 [numa(memorysidecachesize=1GB)] pack:2 [numa] core:1 pu:2",
+               "pack:2 l3:2 [numa(memorysidecachesize=8MB)] [numa] pu:1"]
+    mem_xml = [x for x in xmls if any(k in os.path.basename(x) for k in ("memorysidecache", "KNL", "memattrs", "hmat", "hbm"))]
+    mem_lin = [t for t in S.snapshots("linux") if any(k in os.path.basename(t) for k in ("memorysidecaches", "fakeKNL", "fakeheteromemtiers", "fakememinitiators", "nvidiagpunumanodes", "dax"))]
+    combos = [(g, m, pk, l3) for g in (0, 1, 2) for m in (0, 1) for pk in (0, 1) for l3 in (0, 1)]
+    for (g, m, pk, l3) in (combos if not quick else [c for c in combos if c[1] == 0 or rng.random() < 0.3]):
+        cfg = ["filter 13 %d" % g, "filter 15 %d" % m, "filter 1 %d" % pk, "filter 7 %d" % l3, "flags 0"]
+        for desc in mem_syn:
+            cases.append(("synthetic:%s|%s" % (desc, ";".join(cfg)), cfg + ["src synthetic " + desc], "memory-filters"))
+        for x in mem_xml:
+            cases.append(("xml:%s|%s|libxml=0" % (os.path.basename(x), ";".join(cfg)), ["env HWLOC_LIBXML_IMPORT 0"] + cfg + ["src xml " + x], "memory-filters"))
+        for tb in (mem_lin if not quick else rng.sample(mem_lin, min(3, len(mem_lin)))):
+            d = scratch.unpack(tb)
+            cases.append(("linux:%s|%s" % (os.path.basename(tb), ";".join(cfg)),
+                          ["env HWLOC_COMPONENTS linux,stop", "env HWLOC_THISSYSTEM 0", "env HWLOC_CPUID_PATH"] + cfg + ["src fsroot " + d], "memory-filters"))
     # I/O type filters on the snapshots that have a PCI bus: every (Bridge, PCIDevice) pair of {ALL, NONE, IMPORTANT}
     # with OSDevice/Misc drawn (all 27 triples in the thorough tier).  Seeded change C18b: the Linux PCI discovery
     # tested the PCIDevice filter where it should test the Bridge filter.
@@ -265,7 +284,7 @@ def make_cases(run, scratch):
 
 def trace_inserts(name, kind):
     """Insertion tracing prints the whole raw tree around every insertion (quadratic): small inputs only."""
-    if kind in ("synthetic", "synthetic2", "corpus", "synthetic-deep"):
+    if kind in ("synthetic", "synthetic2", "corpus", "synthetic-deep") or (kind == "memory-filters" and name.startswith("synthetic:")):
         return True
     if kind in ("linux", "x86", "x86-type-none", "linux-type-none", "linux-io-filters", "linux-default", "x86-default"):
         m = re.match(r"\w+:(\d+)", name)
